@@ -455,7 +455,13 @@ class Frame(ContainerOperand):
         else:
             block_gen = blocks
 
-        return cls(TypeBlocks.from_blocks(block_gen()),
+        # if no columns remain (as with an empty intersection), no blocks are yielded: the rows are still those of the inputs
+        if axis == 0:
+            shape_reference = (sum(f._blocks._shape[0] for f in frames), 0)
+        else:
+            shape_reference = (len(index), 0) if hasattr(index, '__len__') else None
+
+        return cls(TypeBlocks.from_blocks(block_gen(), shape_reference=shape_reference),
                 index=index,
                 columns=columns,
                 name=name,
